@@ -136,7 +136,8 @@ def render_class(o, t, members, inv, ic):
     for idx, m in enumerate(members):
         if m[0] == "c":
             # an unescaped dash is a plain character at the very start, at the very end, and right after a range
-            plain_dash = m[1] == 45 and (idx == 0 or idx == len(members) - 1 or members[idx - 1][0] == "r") and t.chance(0.7)
+            # ... and next to a Unicode class escape, which is not a character and so cannot be an end of a range ([a\pL-z], [a-\pL])
+            plain_dash = m[1] == 45 and (idx == 0 or idx == len(members) - 1 or members[idx - 1][0] in ("r", "u") or members[idx + 1][0] == "u") and t.chance(0.7)
             s += "-" if plain_dash else class_member_char(m[1], t)
             chars.append(m[1])
         elif m[0] == "r":
@@ -348,6 +349,10 @@ def rand_expr(rng, d, names):
         ms = []
         if rng.random() < 0.15:       # a character, a range, a dash right after the range, more characters: [_a-c-e]
             ms = [("c", rng.choice([95, 97, 0xE9])), ("r", 97, 99), ("c", 45), ("c", rng.choice([101, 48]))][rng.randint(0, 1):]
+        elif rng.random() < 0.12:     # a dash next to a Unicode class escape: [a\pL-z], [a-\pL], [a-c\pN-]
+            u = ("u", rng.choice(UCL_SINGLE + UCL_LONG))
+            ms = rng.choice([[("c", 97), u, ("c", 45), ("c", 122)], [("c", rng.choice([97, 48])), ("c", 45), u], [("r", 97, 99), u, ("c", 45)],
+                             [("c", 0xE9), u, ("c", 45), ("c", rng.choice([0x20AC, 122])), ("c", 48)]])
         for _ in range(rng.choice([0, 1, 2, 3, 4, 5])):
             c = rng.random()
             if c < 0.5:
